@@ -225,6 +225,27 @@ impl RollState {
         }
     }
 
+    // takes size and start time from the file as it is now
+    fn sync_with_file(&mut self, path: &Path) {
+        let size = std::fs::metadata(path).map_or(0, |md| md.len());
+        match self {
+            RollState::Size { current_size, .. } => {
+                *current_size = size;
+            }
+            RollState::Age { created_at, .. } => {
+                *created_at = get_creation_timestamp(path);
+            }
+            RollState::AgeOrSize {
+                created_at,
+                current_size,
+                ..
+            } => {
+                *created_at = get_creation_timestamp(path);
+                *current_size = size;
+            }
+        }
+    }
+
     fn increase_size(&mut self, add: u64) {
         if let RollState::Size {
             max_size: _,
@@ -568,7 +589,7 @@ impl State {
     }
 
     pub fn reopen_outputfile(&mut self) -> Result<(), std::io::Error> {
-        if let Inner::Active(_, ref mut file, ref p_path) = self.inner {
+        if let Inner::Active(ref mut o_rotation_state, ref mut file, ref p_path) = self.inner {
             #[cfg(feature = "verif_hooks")]
             crate::verif_hooks::point("reopen", Some(p_path))?;
             match OpenOptions::new().create(true).append(true).open(p_path) {
@@ -587,6 +608,19 @@ impl State {
                     remove_file(&dummy)?;
 
                     *file = Box::new(OpenOptions::new().create(true).append(true).open(p_path)?);
+                }
+            }
+            // the file at this path can be another one than before (moved away by an external
+            // tool): its size and its start time count from now on
+            if let Some(ref mut rotation_state) = o_rotation_state {
+                rotation_state.roll_state.sync_with_file(p_path);
+                if let NamingState::Timestamps {
+                    current_timestamp: ref mut ts,
+                    the_current_infix: Some(_),
+                    ..
+                } = rotation_state.naming_state
+                {
+                    *ts = get_creation_timestamp(p_path);
                 }
             }
         }
